@@ -231,8 +231,9 @@ fn emit_b(ctx: &mut Ctx, s: u64, lens: &[u64], seed: u64, bads: &[(u64, u64, u64
         let mut v = vec![];
         enc_nats(&mut v, lens.iter().copied());
         v.push(seed);
-        match drain(lens, bads, GenerationStrategy::Weighted, seed) {
-            Ok(Ok(out)) => enc_nats(&mut v, out.iter().map(|x| x.1)),
+        // (a panic of the generator is reproduced, and reported, by the exec side)
+        match std::panic::catch_unwind(|| drain(lens, bads, GenerationStrategy::Weighted, seed)) {
+            Ok(Ok(Ok(out))) => enc_nats(&mut v, out.iter().map(|x| x.1)),
             _ => v.push(0),
         }
         if !bads.is_empty() {
@@ -249,6 +250,18 @@ pub fn run_c07(ctx: &mut Ctx) {
             for lens in [vec![1u64], vec![3], vec![2, 0, 3], vec![0, 0], vec![0], vec![1, 5], vec![5, 1], vec![2, 2, 2]] {
                 emit(ctx, s, &lens, 1);
             }
+        }
+    }
+    if ctx.first_shard() {
+        // one very large source beside very small ones (ratios above 2^16): sampling weights that are rounded,
+        // scaled to a fixed total or held in a narrow type lose the small source
+        let big: &[&[u64]] = if ctx.thorough { &[&[66000, 1], &[1, 66000], &[3, 200000, 2], &[140000, 2], &[1, 1, 70000]] } else { &[&[66000, 1], &[1, 66000]] };
+        for lens in big {
+            emit(ctx, 2, lens, 7);
+        }
+        if ctx.thorough {
+            emit(ctx, 1, &[66000, 1], 0);
+            emit(ctx, 0, &[1, 66000], 0);
         }
     }
     if ctx.thorough && ctx.first_shard() {
